@@ -335,14 +335,15 @@ theorem C02_eof_shutdown_complete (w : MuxW) (s : SockW) (e : ESock) (r : SendRe
 
 /-- Nothing left to do for one handler: not connecting, both buffers empty, nothing to read (or
 reading already stopped), and every flag that `callback` / `pre_select` would propagate has been
-propagated. -/
+propagated.  (`ok` is deliberately absent: a completely shut handler keeps `ok = True` until its
+next callback, and `pre_select` registers nothing for it, so the real loop can rest in such a
+state until other tunnel traffic arrives.) -/
 def HQ (h : Option ProxyS) (e : ESock) : Prop :=
   ∀ p, h = some p →
     p.sw.connecting = false ∧ p.sw.buf.flatten = [] ∧ p.mw.buf.flatten = [] ∧
     (p.sw.shutR = false → e.pending = [] ∧ e.eofIn = false) ∧
     (p.sw.shutR = true → p.mw.shutW = true) ∧ (p.mw.shutR = true → p.sw.shutW = true) ∧
-    (p.sw.shutW = true → p.mw.shutR = true) ∧ (p.mw.shutW = true → p.sw.shutR = true) ∧
-    (p.sw.shutR = true → p.mw.shutR = true → p.ok = false)
+    (p.sw.shutW = true → p.mw.shutR = true) ∧ (p.mw.shutW = true → p.sw.shutR = true)
 
 /-- A quiet world: both frame queues drained and nothing left to do for any handler. -/
 def Quiet (w : World) : Prop :=
@@ -356,8 +357,8 @@ theorem hqB_iff (h : Option ProxyS) (e : ESock) : hqB h e = true ↔ HQ h e := b
     simp only [hqB, HQ, Option.some.injEq, forall_eq', Bool.and_eq_true, Bool.or_eq_true, Bool.not_eq_eq_eq_not,
       Bool.not_true, List.isEmpty_iff, Bool.not_eq_true']
     constructor
-    · rintro ⟨⟨⟨⟨⟨⟨⟨⟨a1, a2⟩, a3⟩, a4⟩, a5⟩, a6⟩, a7⟩, a8⟩, a9⟩
-      refine ⟨a1, a2, a3, ?_, ?_, ?_, ?_, ?_, ?_⟩
+    · rintro ⟨⟨⟨⟨⟨⟨⟨a1, a2⟩, a3⟩, a4⟩, a5⟩, a6⟩, a7⟩, a8⟩
+      refine ⟨a1, a2, a3, ?_, ?_, ?_, ?_, ?_⟩
       · intro hr; rcases a4 with h' | h'
         · rw [hr] at h'; cases h'
         · exact h'
@@ -373,11 +374,8 @@ theorem hqB_iff (h : Option ProxyS) (e : ESock) : hqB h e = true ↔ HQ h e := b
       · intro hr; rcases a8 with h' | h'
         · rw [hr] at h'; cases h'
         · exact h'
-      · intro h1 h2; rcases a9 with h' | h'
-        · rw [h1, h2] at h'; cases h'
-        · exact h'
-    · rintro ⟨a1, a2, a3, a4, a5, a6, a7, a8, a9⟩
-      refine ⟨⟨⟨⟨⟨⟨⟨⟨a1, a2⟩, a3⟩, ?_⟩, ?_⟩, ?_⟩, ?_⟩, ?_⟩, ?_⟩
+    · rintro ⟨a1, a2, a3, a4, a5, a6, a7, a8⟩
+      refine ⟨⟨⟨⟨⟨⟨⟨a1, a2⟩, a3⟩, ?_⟩, ?_⟩, ?_⟩, ?_⟩, ?_⟩
       · cases hr : p.sw.shutR with
         | true => exact Or.inl rfl
         | false => exact Or.inr (a4 hr)
@@ -393,12 +391,6 @@ theorem hqB_iff (h : Option ProxyS) (e : ESock) : hqB h e = true ↔ HQ h e := b
       · cases hr : p.mw.shutW with
         | true => exact Or.inr (a8 hr)
         | false => exact Or.inl rfl
-      · cases h1 : p.sw.shutR with
-        | false => left; simp
-        | true =>
-          cases h2 : p.mw.shutR with
-          | false => left; simp
-          | true => right; exact a9 h1 h2
 
 /-- The driver's executable test is exactly `Quiet`. -/
 theorem quietB_iff (w : World) : quietB w = true ↔ Quiet w := by
@@ -412,8 +404,9 @@ flow is complete:
   endpoint (no undelivered data);
 * an endpoint that closed (`eofIn`, everything read) has had its close delivered: the other
   endpoint's socket was shut down (no half-open flow);
-* if both endpoints closed, both handlers are finished (`ok = False`): the next loop pass drops them,
-  and their id is already free (`C02_finished_frees_id`).
+* if both endpoints closed, both handlers are completely shut (all four flags): they are unregistered
+  from the Mux — the id is free — and their next callback sets `ok = False`, after which the loop
+  drops them.
 
 `Quiet` is the explicit description of "a loop pass changes nothing"; that the real loop's
 quiescent states satisfy it is checked on every run by the harness (the drained model state is
@@ -428,7 +421,10 @@ theorem C02_quiet_complete (w0 : World) (h0 : Fresh w0) (steps : List Step)
       (f.app.eofIn = true → f.app.pending = [] → f.dst.sawShut = true) ∧
       (f.dst.eofIn = true → f.dst.pending = [] → f.app.sawShut = true) ∧
       (f.app.eofIn = true → f.app.pending = [] → f.dst.eofIn = true → f.dst.pending = [] →
-        (∀ p, f.c = some p → p.ok = false) ∧ (∀ p, f.s = some p → p.ok = false)) := by
+        (∀ p, f.c = some p → p.sw.shutR = true ∧ p.sw.shutW = true ∧ p.mw.shutR = true ∧ p.mw.shutW = true ∧
+            p.mw.registered = false) ∧
+        (∀ p, f.s = some p → p.sw.shutR = true ∧ p.sw.shutW = true ∧ p.mw.shutR = true ∧ p.mw.shutW = true ∧
+            p.mw.registered = false)) := by
   intro f hf
   obtain ⟨hqc, hqs, hqf⟩ := hq
   obtain ⟨hQc, hQs⟩ := hqf f hf
@@ -529,21 +525,21 @@ theorem C02_quiet_complete (w0 : World) (h0 : Fresh w0) (steps : List Step)
     have sA := closeD d1 d2
     constructor
     · intro p hc
-      obtain ⟨_, _, _, h4, _, _, h7, _, h9⟩ := hQc p hc
+      obtain ⟨_, _, _, h4, h5, _, h7, _⟩ := hQc p hc
       have hr : p.sw.shutR = true := by
         cases hr : p.sw.shutR with
         | true => rfl
         | false => have := (h4 hr).2; rw [a1] at this; cases this
       have hw : p.sw.shutW = true := ((hsock.1 p hc).1.2).mpr sA
-      exact h9 hr (h7 hw)
+      exact ⟨hr, hw, h7 hw, h5 hr, by simp [MuxW.registered, h7 hw, h5 hr]⟩
     · intro q hs
-      obtain ⟨_, _, _, h4, _, _, h7, _, h9⟩ := hQs q hs
+      obtain ⟨_, _, _, h4, h5, _, h7, _⟩ := hQs q hs
       have hr : q.sw.shutR = true := by
         cases hr : q.sw.shutR with
         | true => rfl
         | false => have := (h4 hr).2; rw [d1] at this; cases this
       have hw : q.sw.shutW = true := ((hsock.2.1 q hs).1.2).mpr sD
-      exact h9 hr (h7 hw)
+      exact ⟨hr, hw, h7 hw, h5 hr, by simp [MuxW.registered, h7 hw, h5 hr]⟩
 
 /-! ### non-vacuity -/
 
